@@ -792,6 +792,17 @@ func joinVal(cond string, a, b Val) Val {
 			if av.Cond == "false" && bv.Cond == "true" {
 				return BoolV{negCond(cond)}
 			}
+			and := func(x, y string) string { return negCond(orCond(negCond(x), negCond(y))) }
+			switch {
+			case av.Cond == "false":
+				return BoolV{and(negCond(cond), bv.Cond)}
+			case av.Cond == "true":
+				return BoolV{orCond(cond, bv.Cond)}
+			case bv.Cond == "false":
+				return BoolV{and(cond, av.Cond)}
+			case bv.Cond == "true":
+				return BoolV{orCond(negCond(cond), av.Cond)}
+			}
 			return BoolV{"ite(" + cond + "," + av.Cond + "," + bv.Cond + ")"}
 		}
 	case BufV:
